@@ -6,7 +6,8 @@ import vlib
 from checks import common, numself
 
 LEVEL = "proof"
-HARNESS = {"surf": ["corecel", "geocel", "orange"], "numself": ["corecel"]}
+HARNESS = {"surf": ["corecel", "geocel", "orange"], "solids": ["corecel", "geocel", "orange"],
+           "numself": ["corecel"]}
 MANIFEST = {
     "category": "proof",
     "technique": "Lean 4 proof at ℝ of the Num-generic model (solver roots, ray polynomial of every "
@@ -237,6 +238,93 @@ def oracle(ctx, exe, rng, n):
     return len(lines), fails
 
 
+def gen_simplify_case(rng):
+    """surfaces that SurfaceSimplifier / the quadric converters rewrite: planes, spheres,
+    cylinders and cones written as (simple / general) quadrics with arbitrary overall scale"""
+    k = rng.below(8)
+    sc = rng.choice([1.0, 2.0, -3.0, 0.25, 7.5, -0.5])
+    if k == 0:      # plane as sq, non-unit normal, non-zero offset
+        n = [rnd(rng, 3) for _ in range(3)]
+        if rng.chance(1, 2):
+            j = rng.below(3)
+            n = [n[i] if i == j else 0.0 for i in range(3)]
+        if all(v == 0 for v in n):
+            n[0] = 2.0
+        return "sq", [0.0, 0.0, 0.0] + n + [rnd(rng, 6)]
+    if k == 1:      # sphere as sq
+        c = [rnd(rng, 3) for _ in range(3)]
+        r2 = rnd_pos(rng) ** 2
+        return "sq", [sc, sc, sc] + [-2 * sc * v for v in c] + [sc * (sum(v * v for v in c) - r2)]
+    if k == 2:      # axis cylinder as sq
+        t = rng.below(3)
+        c = [rnd(rng, 3) for _ in range(3)]
+        r2 = rnd_pos(rng) ** 2
+        sec = [sc if i != t else 0.0 for i in range(3)]
+        fst = [-2 * sc * c[i] if i != t else 0.0 for i in range(3)]
+        return "sq", sec + fst + [sc * (sum(c[i] ** 2 for i in range(3) if i != t) - r2)]
+    if k == 3:      # axis cone as sq
+        t = rng.below(3)
+        c = [rnd(rng, 3) for _ in range(3)]
+        t2 = rnd_pos(rng, 2.0) ** 2
+        sec = [sc if i != t else -sc * t2 for i in range(3)]
+        fst = [-2 * sec[i] * c[i] for i in range(3)]
+        return "sq", sec + fst + [sum(sec[i] * c[i] ** 2 for i in range(3))]
+    if k == 4:      # gq without cross terms (-> sq -> ...)
+        tag, d = gen_simplify_case(rng) if rng.chance(1, 2) else ("sq", [rnd(rng, 2) for _ in range(7)])
+        if tag != "sq":
+            return tag, d
+        return "gq", d[0:3] + [0.0, 0.0, 0.0] + d[3:6] + [d[6]]
+    if k == 5:      # general plane with tiny off-axis components / negative orientation
+        j = rng.below(3)
+        n = [1e-9 * (rng.unit() - 0.5) if i != j else rng.choice([1.0, -1.0]) for i in range(3)]
+        return "p", n + [rnd(rng)]
+    return gen_surface(rng)
+
+
+def simplify_oracle(ctx, n):
+    """real SurfaceSimplifier/RecursiveSimplifier (through harness/solids.cc `simplify`): the
+    simplified surface with its returned sense must classify points exactly like the original"""
+    exe, log, _ = vlib.build_harness("solids", ["corecel", "geocel", "orange"])
+    if exe is None:
+        return 0, [("solids harness does not build", "", log[-300:], {})]
+    rng = ctx.rng
+    cases, lines = [], []
+    for _ in range(n):
+        tag, d = gen_simplify_case(rng)
+        sense = rng.choice("+-")
+        tol = rng.choice([1e-5, 1e-6, 1e-8])
+        cases.append((tag, d, sense))
+        lines.append("simplify %s %s %s %s" % (hx(tol), sense, tag, " ".join(hx(v) for v in d)))
+    _, out = vlib.run_lines([exe], lines)
+    fails = []
+    for (tag, d, sense), l, o in zip(cases, lines, out):
+        w = o.split()
+        if len(w) < 2 or w[0] not in "+-" or not all(len(x) == 16 for x in w[2:]):
+            continue            # crash / degenerate answers are C09's business
+        nsense, ntag, nd = w[0], w[1], [fl(x) for x in w[2:]]
+        flip = (nsense != sense)
+        scale = sum(abs(v) for v in d) + 1.0
+        nscale = sum(abs(v) for v in nd) + 1.0
+        bad = None
+        for _ in range(12):
+            p = [rnd(rng, 6), rnd(rng, 6), rnd(rng, 6)]
+            try:
+                f0, f1 = quadric(tag, d, p), quadric(ntag, nd, p)
+            except (ValueError, IndexError):
+                break
+            m = (abs(p[0]) + abs(p[1]) + abs(p[2]) + 1.0) ** 2
+            if abs(f0) < 1e-3 * scale * m or abs(f1) < 1e-3 * nscale * m:
+                continue
+            if ((f0 > 0) != (f1 > 0)) != flip:
+                bad = (p, f0, f1)
+                break
+        if bad:
+            fails.append(("sense changes under SurfaceSimplifier", l, o,
+                          {"point": bad[0], "f_before": bad[1], "f_after": bad[2],
+                           "sense_in": sense, "sense_out": nsense}))
+    return len(lines), fails
+
+
 def run(ctx):
     quick = ctx.quick()
     ps = common.proof_side(ctx, "C12")
@@ -273,13 +361,16 @@ def run(ctx):
         broken.append(f"correspondence: model and implementation differ on {len(diverged)} ops "
                       f"(first: {diverged[0]['op'][:60]})")
     n_or, fails = oracle(ctx, exe, ctx.rng, (4000 if quick else 60000) * (4 if broken else 1))
+    n_simp, sfails = simplify_oracle(ctx, 4000 if quick else 60000)
+    n_or += n_simp
+    fails += sfails
     seen = set()
     for what, l, o, info in fails:
-        key = "oracle:" + what.replace(" ", "-") + ":" + l.split()[1]
+        key = "oracle:" + what.replace(" ", "-") + ":" + (l.split()[3] if l.startswith("simplify") else l.split()[1])
         if key in seen:
             continue
         seen.add(key)
-        ctx.violation(key, f"real ORANGE surface code: {what} ({l.split()[0]} {l.split()[1]})",
+        ctx.violation(key, f"real ORANGE surface code: {what} ({l.split()[0]} {key.rsplit(':', 1)[1]})",
                       {"harness": "harness/surf.cc", "op": l, "impl_output": o, "info": info,
                        "values": [fl(w) if len(w) == 16 else w for w in l.split()[1:]]})
     if broken and not ctx.violations:
